@@ -115,6 +115,10 @@ fn neighbours(s: &str, rng: &mut Rng, all: bool) -> Vec<String> {
     for w in REAL_WORLD {
         out.push(w.to_string());
     }
+    // every string literal of the source tree under test (an alias has to be spelled somewhere)
+    for w in &crate::schema::literals().texts {
+        out.push(w.clone());
+    }
     for _ in 0..8 {
         let n = rng.usize(16);
         out.push(rng.ascii(n));
